@@ -501,6 +501,12 @@ impl Sim {
                 }
             }
         }
+        // an instance with clockClass 1..127 may never be a slave (decision codes M1/P1 only)
+        for x in 0..n {
+            if active(x) && self.specs[x].class < 128 && states[x].contains(&PS::Slave) {
+                return Some(format!("node {} with clockClass {} (< 128, may not be a slave) has a slave port: {:?}", x, self.specs[x].class, states[x]));
+            }
+        }
         // (S) one master per segment with a master-capable attached port
         for (si, seg) in self.sc.segments.iter().enumerate() {
             let eps: Vec<&(usize, usize)> = seg.iter().filter(|e| !self.cut.contains(e) && active(e.0)).collect();
